@@ -400,6 +400,7 @@ func cmdCheck(args []string) int {
 		names = append(names, o.Name)
 	}
 	if *regen {
+		writeLocals()
 		os.MkdirAll(filepath.Dir(expPath), 0o755)
 		os.WriteFile(expPath, []byte(strings.Join(names, "\n")+"\n"), 0o644)
 	}
